@@ -80,6 +80,7 @@ func (fx *FuncCtx) callWith(st *State, cc *ssa.CallCommon, fnv Val, args []Val, 
 		callee = fnv.Fn
 	}
 	if callee != nil {
+		fx.curInstr = instr
 		if v, done := fx.specialCall(st, callee, args, rt, pos); done {
 			return v
 		}
@@ -131,6 +132,41 @@ func (fx *FuncCtx) specialCall(st *State, callee *ssa.Function, args []Val, rt t
 		return Val{}, true
 	case "(*sync.Mutex).Unlock", "(*sync.RWMutex).Unlock", "(*sync.RWMutex).RUnlock":
 		fx.unlock(st, args[0], pos)
+		return Val{}, true
+	case "(*sync.Once).Do":
+		// f runs at most once: either this call runs it (contract of the closure applied) or an earlier one did
+		f := args[1]
+		if f.Fn == nil || fx.curInstr == nil {
+			fx.failf("sync.Once.Do with an unknown function value")
+		}
+		if _, isCall := fx.curInstr.(*ssa.Call); !isCall {
+			fx.failf("sync.Once.Do in defer/go")
+		}
+		fx.trusted["sync.Once.Do(f): f runs in at most one call of Do; each call is checked for both cases"] = true
+		fc := fx.eng.contractOf(f.Fn)
+		if fc == nil {
+			// no contract: the closure body is executed in place on one path, skipped on the other
+			skip := st.clone()
+			skip.trail = append(skip.trail, "once:skip")
+			b := fx.curInstr.Block()
+			idx := -1
+			for i, x := range b.Instrs {
+				if x == fx.curInstr {
+					idx = i
+				}
+			}
+			fx.npaths++
+			fx.runFrom(skip, b, idx+1)
+			st.trail = append(st.trail, "once:run")
+			fx.inlineCall(st, fx.curInstr, f.Fn, f, nil, false)
+			return Val{}, true
+		}
+		ran := st.clone()
+		ran.trail = append(ran.trail, "once:run")
+		fx.applyContract(ran, f.Fn, fc, f, f.Bind, nil, pos)
+		skip := st.clone()
+		skip.trail = append(skip.trail, "once:skip")
+		fx.forkAfter(st, fx.curInstr, []*State{ran, skip})
 		return Val{}, true
 	case "fmt.Sprintf":
 		return fx.sprintf(st, args, pos), true
